@@ -81,6 +81,8 @@ CONT = [
     ("liesel_tr", "RW", ["tau2_transformed"], [0.5]),
     ("liesel_tr", "IWLS", ["tau2_transformed"], [0.8]),
     ("liesel_tr", "IWLS", ["tau2_transformed", "m"], [0.9]),
+    ("liesel_trc", "RW", ["log_tau"], [0.5]),
+    ("liesel_trc", "RW", ["b_transformed"], [0.8]),
 ]
 
 HAM = [
@@ -96,6 +98,7 @@ HAM = [
     ("liesel", "NUTS", ["beta", "mu"], "dense", 0.15),
     ("liesel_tr", "HMC", ["tau2_transformed", "m"], "diag", 0.15),
     ("liesel_tr", "NUTS", ["tau2_transformed"], "id", 0.3),
+    ("liesel_trc", "HMC", ["log_tau", "b_transformed"], "id", 0.2),
 ]
 
 
@@ -106,6 +109,8 @@ def units(tier, seed):
     for model, kern, keys, steps in CONT:
         for s in steps:
             us.append({"part": "cont", "model": model, "kernel": kern, "keys": keys, "step": s, "tier": tier})
+    us.append({"part": "support"})
+    us.append({"part": "gibbs_cont"})
     for model, kern, keys, mm, step in HAM:
         us.append({"part": "ham", "model": model, "kernel": kern, "keys": keys, "mm": mm, "step": step, "tier": tier})
     return us
@@ -309,6 +314,12 @@ class Target:
             self.state0 = self.model.state
             self.full0 = {p: np.asarray(self.state0[kl.param_node(p)].value, dtype=np.float64) for p in kl.PARAMS}
             self._lp = lambda full: kl.ref_liesel(full)["_model_log_prob"]
+        elif model_name == "liesel_trc":
+            self.model = kl.build_class_transformed_model()
+            self.interface = gs.LieselInterface(self.model)
+            self.state0 = self.model.state
+            self.full0 = {p: np.asarray(self.state0[f"{p}_value"].value, dtype=np.float64) for p in kl.TRC_PARAMS}
+            self._lp = kl.ref_class_transformed
         elif model_name == "liesel_tr":
             self.model = kl.build_transformed_model()
             self.interface = gs.LieselInterface(self.model)
@@ -738,8 +749,139 @@ def run_ham(res, unit):
     res.note([unit, n_exec, sorted(res.outcomes)])
 
 
+def run_support(res, unit):
+    """
+    Constrained support: a proposal that lands where the target density is zero (-inf) or
+    undefined (NaN, as TFP's Gamma / Poisson report outside the support) must never be
+    accepted, otherwise mass leaks out of the support and the target is not invariant.
+    """
+    import jax
+    import jax.numpy as jnp
+    import liesel.goose as gs
+    from liesel.goose.epoch import EpochConfig, EpochType
+
+    ep = EpochConfig(EpochType.POSTERIOR, 5, 1, None).to_state(2, 6)
+    targets = {
+        "nan-outside": lambda s: jnp.where(s["x"] > 0, 2.0 * jnp.log(jnp.abs(s["x"])) - 1.5 * s["x"], jnp.nan),
+        "neginf-outside": lambda s: jnp.where(s["x"] > 0, 2.0 * jnp.log(jnp.abs(s["x"])) - 1.5 * s["x"], -jnp.inf),
+    }
+
+    def mh_prop(key, model_state, step_size):
+        z = jax.random.normal(key, ())
+        return gs.MHProposal({"x": model_state["x"] + step_size * z}, jnp.float32(0.0))
+
+    for tname, lp in targets.items():
+        itf = gs.DictInterface(lp)
+        for kname, k in (("RW", gs.RWKernel(["x"], initial_step_size=1.0)), ("MH", gs.MHKernel(["x"], mh_prop, initial_step_size=1.0)), ("IWLS", gs.IWLSKernel(["x"], initial_step_size=1.0, chol_info_fn=lambda s: jnp.array([[1.0]])))):
+            k.identifier = "kernel_00"
+            k.set_model(itf)
+            for x0 in (0.3, 1.2):
+                for z in (-2.5, -6.0):
+                    for u in (1e-12, 0.5, 1 - 1e-7):
+                        st = {"x": jnp.float32(x0)}
+                        ks = k.init_state(jax.random.PRNGKey(0), st)
+
+                        def script(fn, i, shape, info):
+                            if fn == "normal":
+                                return jnp.full(shape, jnp.float32(z))
+                            if fn == "uniform":
+                                return u
+                            raise RuntimeError(fn)
+
+                        with jax.disable_jit(), seams.ScriptedPRNG(script):
+                            out = k.transition(jax.random.PRNGKey(1), ks, st, ep)
+                        res.executions += 1
+                        res.transitions += 1
+                        x1 = float(out.model_state["x"])
+                        a = float(out.info.acceptance_prob)
+                        case = {"target": tname, "kernel": kname, "x": x0, "z": z, "u": u}
+                        res.outcome("support", tname, kname, "left-support" if not x1 > 0 else "stayed")
+                        if not x1 > 0:
+                            res.violation("support", f"accepts-outside-support-{kname}-{tname}", case, f"{kname}: chain moved from x={x0} to x'={x1}, where the target density is {'undefined (NaN)' if tname.startswith('nan') else 'zero'} (reported acceptance {a}) ({case})")
+                        elif not np.isclose(x1, x0):
+                            res.outcome("support", tname, kname, "proposal-inside-support")
+                            continue  # e.g. IWLS drift keeps this proposal inside the support: nothing to check
+                        if a != 0.0:
+                            res.violation("support", f"alpha-nonzero-outside-support-{kname}-{tname}", case, f"{kname}: acceptance probability {a} for a proposal outside the support ({case})")
+    res.states += 1
+    res.sample({"support": sorted(targets)})
+    res.note(sorted(res.outcomes))
+
+
+def run_gibbs_cont(res, unit):
+    """
+    Continuous Gibbs kernel (inverse-gamma draw for a smoothing variance): the drawn law
+    IG(a_g, b_g) is read off the real transition through the gamma seam; the kernel leaves
+    the posterior invariant iff that law is the full conditional, i.e. iff
+    log pi_model(tau2, rest) - log IG(tau2; a_g, b_g) does not depend on tau2.
+    """
+    import jax
+    import jax.numpy as jnp
+    import liesel.goose as gs
+    import liesel.model as lsl
+    import tensorflow_probability.substrates.jax.bijectors as tfb
+    import tensorflow_probability.substrates.jax.distributions as tfd
+    from liesel.goose.epoch import EpochConfig, EpochType
+    from liesel.model.distreg import DistRegBuilder, tau2_gibbs_kernel
+    from scipy.special import gammaln
+
+    ep = EpochConfig(EpochType.POSTERIOR, 5, 1, None).to_state(2, 6)
+    pens = {
+        "RW1_4 (rank 3)": np.array([[1, -1, 0, 0], [-1, 2, -1, 0], [0, -1, 2, -1], [0, 0, -1, 1]], dtype=np.float32),
+        "I_3 (full rank)": np.eye(3, dtype=np.float32),
+        "RW2_5 (rank 3)": (lambda D: (D.T @ D).astype(np.float32))(np.diff(np.eye(5), n=2, axis=0)),
+    }
+    for pname, K in pens.items():
+        d = K.shape[0]
+        X = np.linspace(-1, 1, 6 * d).reshape(6, d).astype(np.float32)
+        yv = np.linspace(-0.5, 0.8, 6).astype(np.float32)
+        for a0, b0 in ((1.0, 0.5), (2.5, 0.01)):
+            bld = DistRegBuilder()
+            bld.add_response(yv, tfd.Normal)
+            bld.add_predictor("loc", tfb.Identity)
+            bld.add_predictor("scale", tfb.Exp)
+            bld.add_np_smooth(X, K, a0, b0, "loc")
+            model = bld.build_model()
+            grp = [g for g in model.groups().values() if "tau2" in g][0]
+            itf = gs.LieselInterface(model)
+            kern = tau2_gibbs_kernel(grp)
+            kern.identifier = "kernel_00"
+            kern.set_model(itf)
+            tname, bname = grp["tau2"].name, grp["beta"].name
+            for beta in (np.arange(1, d + 1, dtype=np.float32) * 0.3, np.ones(d, dtype=np.float32) * 0.7, np.array([0.5, -0.2, 0.1, 0.9, -0.4][:d], dtype=np.float32)):
+                st = itf.update_state({bname: jnp.asarray(beta), tname: jnp.float32(1.3)}, model.state)
+                rec = {}
+
+                def script(fn, i, shape, info):
+                    if fn != "gamma":
+                        raise RuntimeError(f"unexpected draw {fn}")
+                    rec["a"] = float(np.asarray(info["a"]))
+                    return 1.0
+
+                with jax.disable_jit(), seams.ScriptedPRNG(script):
+                    out = kern.transition(jax.random.PRNGKey(1), kern.init_state(jax.random.PRNGKey(0), st), st, ep)
+                res.executions += 1
+                res.transitions += 1
+                a_g = rec["a"]
+                b_g = float(out.model_state[f"{tname}_value"].value)  # draw = b_g / 1
+                grid = [0.1, 0.5, 1.0, 2.0, 10.0, 100.0]
+                diffs = []
+                for t2 in grid:
+                    lp = float(itf.log_prob(itf.update_state({tname: jnp.float32(t2)}, st)))
+                    lig = a_g * math.log(b_g) - float(gammaln(a_g)) - (a_g + 1) * math.log(t2) - b_g / t2
+                    diffs.append(lp - lig)
+                spread = max(diffs) - min(diffs)
+                case = {"penalty": pname, "a": a0, "b": b0, "beta": beta.tolist(), "a_gibbs": a_g, "b_gibbs": b_g}
+                res.outcome("gibbs_cont", pname, a0)
+                if spread > 0.01 + 1e-6 * max(abs(x) for x in diffs):
+                    res.violation("gibbs_cont", "tau2-law-not-full-conditional", case, f"tau2 Gibbs kernel draws IG({a_g:.4f}, {b_g:.5f}) but log pi_model(tau2) - log IG(tau2) varies by {spread:.4f} over tau2 in {grid}: the drawn law is not the model's full conditional, the posterior is not invariant ({case})")
+    res.states += 1
+    res.sample({"gibbs_cont": sorted(pens)})
+    res.note(sorted(res.outcomes))
+
+
 def run_unit(unit):
     core.assert_repo()
     res = core.UnitResult(unit)
-    {"finite": run_finite, "cont": run_cont, "ham": run_ham}[unit["part"]](res, unit)
+    {"finite": run_finite, "cont": run_cont, "ham": run_ham, "support": run_support, "gibbs_cont": run_gibbs_cont}[unit["part"]](res, unit)
     return res
